@@ -41,7 +41,17 @@ func (p *watPrinter) printImport() error {
 			fmt.Fprint(p.w, "))\n")
 
 		case token.TABLE:
-			panic("TODO")
+			fmt.Fprint(p.w, p.indent)
+			fmt.Fprintf(p.w, "(import %q %q", importSpec.ObjModule, importSpec.ObjName)
+			fmt.Fprintf(p.w, " (table")
+			if s := importSpec.Table.Name; s != "" {
+				fmt.Fprint(p.w, " $"+s)
+			}
+			fmt.Fprintf(p.w, " %d", importSpec.Table.Size)
+			if importSpec.Table.MaxSize != 0 {
+				fmt.Fprintf(p.w, " %d", importSpec.Table.MaxSize)
+			}
+			fmt.Fprint(p.w, "))\n")
 
 		default:
 			panic("unreachable")
